@@ -10,6 +10,8 @@ import (
 	"bytes"
 	"encoding/json"
 	"fmt"
+	"os"
+	"runtime/pprof"
 	"sort"
 	"strings"
 	"sync"
@@ -442,7 +444,9 @@ func runBig(c Case) (res result) {
 
 // orderViolation checks: every tx after the producers of what it consumes and
 // before any tx that overwrites a key version it only read.
-func orderViolation(pool []*pb.Transaction) string {
+func orderViolation(pool []*pb.Transaction) string { return orderViolationN(pool, uni.Names) }
+
+func orderViolationN(pool []*pb.Transaction, names *world.Names) string {
 	pos := map[string]int{}
 	for i, t := range pool {
 		pos[string(t.Txid)] = i
@@ -450,7 +454,7 @@ func orderViolation(pool []*pb.Transaction) string {
 	for i, t := range pool {
 		for _, in := range t.TxInputs {
 			if j, ok := pos[string(in.RefTxid)]; ok && j > i {
-				return fmt.Sprintf("consumer_before_producer: %s comes before %s whose output it spends", uni.Names.Of(t.Txid), uni.Names.Of(in.RefTxid))
+				return fmt.Sprintf("consumer_before_producer: %s comes before %s whose output it spends", names.Of(t.Txid), names.Of(in.RefTxid))
 			}
 		}
 		writes := map[string]bool{}
@@ -459,7 +463,7 @@ func orderViolation(pool []*pb.Transaction) string {
 		}
 		for _, in := range t.TxInputsExt {
 			if j, ok := pos[string(in.RefTxid)]; ok && j > i {
-				return fmt.Sprintf("consumer_before_producer: %s comes before %s whose key version it reads", uni.Names.Of(t.Txid), uni.Names.Of(in.RefTxid))
+				return fmt.Sprintf("consumer_before_producer: %s comes before %s whose key version it reads", names.Of(t.Txid), names.Of(in.RefTxid))
 			}
 			if writes[in.Bucket+"/"+string(in.Key)] {
 				continue
@@ -472,7 +476,7 @@ func orderViolation(pool []*pb.Transaction) string {
 					if in2.Bucket == in.Bucket && bytes.Equal(in2.Key, in.Key) && bytes.Equal(in2.RefTxid, in.RefTxid) && in2.RefOffset == in.RefOffset {
 						for _, o2 := range t2.TxOutputsExt {
 							if o2.Bucket == in.Bucket && bytes.Equal(o2.Key, in.Key) {
-								return fmt.Sprintf("reader_after_overwriter: %s only reads %s/%s but comes after %s which overwrites that version", uni.Names.Of(t.Txid), in.Bucket, in.Key, uni.Names.Of(t2.Txid))
+								return fmt.Sprintf("reader_after_overwriter: %s only reads %s/%s but comes after %s which overwrites that version", names.Of(t.Txid), in.Bucket, in.Key, names.Of(t2.Txid))
 							}
 						}
 					}
@@ -545,6 +549,11 @@ func (stubConsensus) GetConsensusStatus() (base.ConsensusStatus, error)   { retu
 
 func run(tier core.Tier) *core.Report {
 	rep := core.NewReport("C13", tier, "model_checking")
+	if pf := os.Getenv("C13_DEV_PROF"); pf != "" {
+		f, _ := os.Create(pf)
+		pprof.StartCPUProfile(f)
+		defer pprof.StopCPUProfile()
+	}
 	setup()
 	var cases []Case
 	for _, f := range families {
@@ -655,11 +664,18 @@ func run(tier core.Tier) *core.Report {
 			}
 		}()
 	}
+	if os.Getenv("C13_DEV_ONLY_TIMER") != "" { // development aid: the run is then reported as not exhaustive
+		cases = nil
+		stopped = true
+	}
 	for _, c := range cases {
 		jobs <- c
 	}
 	close(jobs)
 	wg.Wait()
+	if runTimerFamily(rep, tier) {
+		stopped = true
+	}
 	if executed == 0 {
 		executed = 1
 	}
@@ -667,9 +683,9 @@ func run(tier core.Tier) *core.Report {
 	for k := range kinds {
 		ks = append(ks, k)
 	}
-	rep.Set("states", executed)
-	rep.Set("transitions", executed)
-	rep.Set("traces_validated_against_impl", executed)
+	rep.Add("states", executed)
+	rep.Add("transitions", executed)
+	rep.Add("traces_validated_against_impl", executed)
 	rep.Set("cases_enumerated", len(cases))
 	rep.Set("cases_skipped_inadmissible_submission_order", skipped)
 	rep.Set("distinct_blocks_produced", len(outcomes))
@@ -679,7 +695,7 @@ func run(tier core.Tier) *core.Report {
 	rep.Set("transactions_arrived_inside_CalculateBlock", int(arrivalsTotal))
 	rep.Set("bound", fmt.Sprintf("%d pool families, every submission order, every iteration order of the 3 rewritten pool map ranges (site %s: identity+reverse for 4-tx pools in quick)", len(families), sites[1]))
 	rep.Set("exhaustive", !stopped)
-	rep.Assume("the timer transaction is empty (no timer task scheduled) in these universes")
+	rep.Assume("timer tasks are scheduled through the real $proposal / $timer_task contracts only (vote check and trigger of a proposal); the trigger action is a harness kernel method running a $vkv program")
 	rep.Assume("map iteration order is owned through the rewritten ranges in SortUnconfirmedTx and TopSortDFS; sync.Map.Range order only feeds those maps")
 	return rep
 }
@@ -696,6 +712,12 @@ func replay(c json.RawMessage) (bool, string, error) {
 	}
 	if json.Unmarshal(c, &ac) == nil && ac.A != nil {
 		return replayAward(ac.A.Award, ac.A.Ratio, ac.A.Gap, ac.A.History, ac.A.Height)
+	}
+	var tc struct {
+		T *TCase `json:"timer_case"`
+	}
+	if json.Unmarshal(c, &tc) == nil && tc.T != nil {
+		return replayTimer(*tc.T)
 	}
 	var cs Case
 	if err := json.Unmarshal(c, &cs); err != nil {
